@@ -69,3 +69,24 @@ def semidet_yield_constant(rep):
                     probs.append('line %d: returns %s' % (n.lineno, ast.unparse(n)))
         rep.add_checked('engine.%s.interface.yields_constant_false' % q, not probs, '; '.join(probs), 'ast', function='engine.' + q,
                         witness=probs or None)
+
+
+def caught_exceptions_do_not_escape(rep):
+    """premise of A-TRACEBACK: an exception object caught by a handler is not stored or returned - its traceback would keep
+    the unwound generator frames (and with them suspended bindings) alive after the handler has ended"""
+    mod, fns = _functions('engine')
+    for q, fn in fns.items():
+        probs = []
+        for h in [n for n in ast.walk(fn) if isinstance(n, ast.ExceptHandler) and n.name]:
+            for n in ast.walk(h):
+                if isinstance(n, ast.Name) and n.id == h.name and isinstance(n.ctx, ast.Load):
+                    # allowed: `raise X(...) from e`, str(e)/repr(e) inside a raise
+                    ok = False
+                    for r in ast.walk(h):
+                        if isinstance(r, ast.Raise) and (r.cause is n or (r.exc is not None and any(x is n for x in ast.walk(r.exc)))):
+                            ok = True
+                    if not ok:
+                        probs.append('line %d: the caught exception %s is used outside a raise' % (n.lineno, h.name))
+        if any(isinstance(n, ast.ExceptHandler) for n in ast.walk(fn)):
+            rep.add_checked('engine.%s.frame.caught_exception_does_not_escape' % q, not probs, '; '.join(probs), 'ast', function='engine.' + q,
+                            witness=probs or None)
